@@ -578,7 +578,7 @@ fn main() {
     }
 
     let threads = ncpu();
-    let cases = args.pick(1300usize, 30_000usize);
+    let cases = args.pick(4000usize, 30_000usize);
     let per_thread = cases / threads + 1;
     let thorough = args.thorough();
     let parts = parallel(threads, args.seed ^ 0xC19, move |ti, mut rng| {
